@@ -53,7 +53,8 @@ CONSTANTS
     MaxDepth,      \* call depth bound
     MaxFrameOps,   \* operations per frame bound
     MaxTx,         \* transactions per behaviour
-    UsedMode       \* "all": every gasUsed in IntrinsicGas..limit ; "one": a single representative
+    UsedMode,      \* "all": every gasUsed in IntrinsicGas..limit ; "one": a single representative
+    GrindFail      \* BOOLEAN: contract creations may fail to find an address in this zone
 
 MAXU == -1   \* 2^256 - 1
 BIG  == -2   \* a number above every balance but far below 2^256 (2^64 * fee rate)
@@ -62,9 +63,9 @@ Special == {"Z", "F", "N", "Q"}   \* zero address, fresh address, address create
 Acct == EOAs \cup Contracts \cup Special
 
 \* ---- fork regimes, by prime terminus number
-\*  "A" < ControllerKickInBlock ; "B" conversions allowed ; "E" ShaEquivalentDifficultyForkBlock hold interval ;
-\*  "F" after it ; "G" >= SelfDestructRefundForkBlock
-ConvAllowed(r)  == r \in {"B", "F", "G"}
+\*  "A" < ControllerKickInBlock ; "B" conversions allowed ; "C" KawPowForkBlock hold interval (as "A") ; "D" after it
+\*  (as "B") ; "E" ShaEquivalentDifficultyForkBlock hold interval ; "F" after it ; "G" >= SelfDestructRefundForkBlock
+ConvAllowed(r)  == r \in {"B", "D", "F", "G"}
 LockupRevert(r) == r \in {"E", "F", "G"}
 PostSD(r)       == r = "G"
 
@@ -73,6 +74,9 @@ PostSD(r)       == r = "G"
 \* "elig"     Quai address, eligible zone      "inelig"  Quai address, zone not eligible
 \* "qiother"  Qi address of another zone
 InChainScope(d) == d \in {"inscope", "qiown"}
+\* eligibility is a property of the destination ZONE only: opETX (unlike CreateETX) does not look at the ledger bit, so
+\* a Qi address of an eligible zone is accepted as destination of a Quai ETX
+ZoneEligible(d) == d \in {"elig", "qiother"}
 IsQi(d)         == d \in {"qiown", "qiother"}
 
 VARIABLES
@@ -122,6 +126,9 @@ Silent == UNCHANGED <<obs, hist>> /\ step' = step + 1
 Rec(a, x, y, v, g, p, c) == [a |-> a, x |-> x, y |-> y, v |-> v, g |-> g, p |-> p, c |-> c]
 NoC == [k |-> "-"]
 
+\* state before a transaction, carried by its first record (the driver builds the real pre-state from it)
+PreState == [bal |-> bal, wq |-> wq, lk |-> lock, lockval |-> LockVal]
+
 Prefill == IF tx.phase = "idle" THEN 0 ELSE tx.prefill
 NEtx(e) == Len(e) + Prefill
 
@@ -155,7 +162,7 @@ TxBegin(payer, kind, to, v, g, p, rg, pf) ==
     /\ kind \in TxKinds \ {"inbound"}
     /\ IF kind = "kquai" THEN payer = "Q" ELSE payer \in EOAs
     /\ LET ok == bal[payer] >= g * p + v /\ g >= IntrinsicGas
-           rec == Rec("txbegin", payer, to, v, g, p, [k |-> kind, rg |-> rg, pf |-> pf])
+           rec == Rec("txbegin", payer, to, v, g, p, [k |-> kind, rg |-> rg, pf |-> pf]) @@ [pre |-> PreState]
        IN  IF ok
            THEN /\ bal' = [bal EXCEPT ![payer] = @ - g * p]             \* buyGas
                 /\ tx' = [phase |-> "begun", kind |-> kind, payer |-> payer, to |-> to, v |-> v, g |-> g, p |-> p,
@@ -180,14 +187,16 @@ EtxStage(to, v, glc, rg, pf) ==
     /\ gh' = [sum0 |-> Total(bal), gas |-> 0, out |-> 0, credits |-> v, burnt |-> 0, held |-> bal["Z"]]
     /\ devs' = {}
     /\ ntx' = ntx + 1
-    /\ Log(Rec("etxstage", "Z", to, v, 0, 0, [k |-> "inbound", rg |-> rg, pf |-> pf, glc |-> glc]) @@ [res |-> "ok"],
+    /\ Log(Rec("etxstage", "Z", to, v, 0, 0, [k |-> "inbound", rg |-> rg, pf |-> pf, glc |-> glc]) @@ [res |-> "ok", pre |-> PreState],
            MkObs(bal', pf, wq, lock, -1, -1, "ok"), 0)
     /\ UNCHANGED <<code, ncreated, sui, wq, lock, frames, etx, op, blockOut, survAll, bdevs>>
 
 Snap == [bal |-> bal, code |-> code, ncreated |-> ncreated, sui |-> sui, wq |-> wq, netx |-> Len(etx),
          out |-> gh.out, credits |-> gh.credits, burnt |-> gh.burnt]
 
-Frame(self, kind, snap) == [self |-> self, kind |-> kind, snap |-> snap, nops |-> 0]
+\* starved: CREATE hands 63/64 of the creator's gas to the init code; when that halts exceptionally the creator has
+\* (next to) no gas left.  The specification does not model gas inside a transaction, so such a frame may only end.
+Frame(self, kind, snap) == [self |-> self, kind |-> kind, snap |-> snap, nops |-> 0, starved |-> FALSE]
 
 \* Top-level message call: TransitionDb -> evm.Call(sender, to, data, gas, value).  Observed at CaptureStart
 \* (after the value transfer, before the first instruction).
@@ -227,6 +236,15 @@ TopCreate ==
                   MkObs(b2, NEtx(etx), wq, lock, -1, -1, "enter"), 1)
     /\ UNCHANGED <<code, sui, wq, lock, etx, op, gh, devs, blockOut, survAll, bdevs, ntx>>
 
+\* evm.Create finds no address of this zone's Quai ledger (plain CREATE address invalid and address grinding gives
+\* up): the creation fails before anything happens and all gas is gone.  Which (creator, nonce, code) triples are hit
+\* is a matter of hashing, so the specification leaves it open (enabled only when GrindFail is set).
+TopCreate_NoAddress ==
+    /\ GrindFail /\ tx.phase = "begun" /\ tx.kind = "create"
+    /\ tx' = [tx EXCEPT !.phase = "ending", !.status = "failed", !.hard = TRUE]
+    /\ Silent
+    /\ UNCHANGED <<bal, code, ncreated, sui, wq, lock, frames, etx, op, gh, devs, blockOut, survAll, bdevs, ntx>>
+
 \* Finalisation of the state after a transaction (statedb.Finalize(true) in applyTransaction): self-destructed
 \* accounts are deleted together with whatever balance they hold at that time.
 FinalBal(b, S) == [a \in Acct |-> IF a \in S THEN 0 ELSE b[a]]
@@ -235,8 +253,8 @@ FinalCode(c, S) == [a \in Acct |-> IF a \in S THEN "none" ELSE c[a]]
 \* "Suicide" + 20 address bytes sent by an EOA to itself: TransitionDb destroys the sender account, credits the
 \* beneficiary with balance + rent refund and RETURNS WITHOUT refundGas: the payer keeps paying the whole gas limit
 \* although only the intrinsic gas is reported as used.  (C02 note 1.)
-TxSelfDestructByData(benef) ==
-    /\ tx.phase = "begun" /\ tx.kind = "sdata"
+TxSelfDestructByData(benef, used) ==
+    /\ tx.phase = "begun" /\ tx.kind = "sdata" /\ used >= IntrinsicGas /\ used <= tx.g
     /\ LET x  == bal[tx.payer]
            b1 == [bal EXCEPT ![tx.payer] = 0]
            b2 == [b1 EXCEPT ![benef] = @ + x + Rent]
@@ -246,16 +264,16 @@ TxSelfDestructByData(benef) ==
            /\ code' = FinalCode(code, {tx.payer})
            /\ gh' = [gh EXCEPT !.credits = @ + Rent, !.burnt = @ + lost]
            /\ tx' = Idle
-           /\ Log(Rec("sdata", tx.payer, benef, 0, IntrinsicGas, tx.p, [k |-> "sdata", lim |-> tx.g]) @@ [res |-> "ok"],
+           /\ Log(Rec("sdata", tx.payer, benef, 0, used, tx.p, [k |-> "sdata", lim |-> tx.g]) @@ [res |-> "ok"],
                   MkObs(b3, 0, wq, lock, 1, -1, "norefund"), 1)
     /\ UNCHANGED <<ncreated, sui, wq, lock, frames, etx, op, devs, blockOut, survAll, bdevs, ntx>>
 
 \* Transaction from the kQuai setting address: handled entirely inside TransitionDb, both outcomes RETURN WITHOUT
 \* refundGas.  (C02 note 2.)
-TxKQuaiControl(dc) ==
-    /\ tx.phase = "begun" /\ tx.kind = "kquai"
+TxKQuaiControl(dc, used) ==
+    /\ tx.phase = "begun" /\ tx.kind = "kquai" /\ used >= IntrinsicGas /\ used <= tx.g
     /\ tx' = Idle
-    /\ Log(Rec("kquai", tx.payer, "-", 0, IntrinsicGas, tx.p, [k |-> dc, lim |-> tx.g]) @@ [res |-> IF dc = "freeze" THEN "ok" ELSE "failed"],
+    /\ Log(Rec("kquai", tx.payer, "-", 0, used, tx.p, [k |-> dc, lim |-> tx.g]) @@ [res |-> IF dc = "freeze" THEN "ok" ELSE "failed"],
            MkObs(bal, 0, wq, lock, IF dc = "freeze" THEN 1 ELSE 0, -1, "norefund"), 1)
     /\ UNCHANGED <<bal, code, ncreated, sui, wq, lock, frames, etx, op, gh, devs, blockOut, survAll, bdevs, ntx>>
 
@@ -263,7 +281,7 @@ TxKQuaiControl(dc) ==
 \* Frames.  cur = executing frame.
 InFrame == tx.phase = "exec" /\ frames # <<>> /\ op = NoOp
 Cur == frames[Len(frames)]
-CanOp == InFrame /\ Cur.nops < MaxFrameOps
+CanOp == InFrame /\ Cur.nops < MaxFrameOps /\ ~Cur.starved
 Bump == [frames EXCEPT ![Len(frames)].nops = @ + 1]
 
 \* opCall -> evm.Call: balance check, snapshot, (account creation), Transfer, run code.
@@ -305,12 +323,21 @@ Create(v) ==
                        MkObs(b2, NEtx(etx), wq, lock, -1, -1, "enter"), 1)
     /\ UNCHANGED <<code, sui, wq, lock, tx, etx, op, gh, devs, blockOut, survAll, bdevs, ntx>>
 
+\* CREATE inside a frame finding no address: status 0, nothing else (the gas handed to it is lost)
+Create_NoAddress(v) ==
+    /\ GrindFail /\ CanOp /\ ~ncreated /\ bal[Cur.self] >= v
+    /\ frames' = Bump
+    /\ Log(Rec("create", Cur.self, "N", v, 0, 0, [k |-> "create", enter |-> FALSE]),
+           MkObs(bal, NEtx(etx), wq, lock, 0, 1, "no-address"), 1)
+    /\ UNCHANGED <<bal, code, ncreated, sui, wq, lock, tx, etx, op, gh, devs, blockOut, survAll, bdevs, ntx>>
+
 \* leaving a frame: the status word is pushed on the caller's stack, or the transaction body is over
+PopTo(n, starve) == [i \in 1..n |-> IF i = n /\ starve THEN [frames[i] EXCEPT !.starved = TRUE] ELSE frames[i]]
 Pop(ok, hard) ==
     IF Len(frames) = 1
     THEN /\ frames' = <<>>
          /\ tx' = [tx EXCEPT !.phase = "ending", !.status = IF ok THEN "ok" ELSE "failed", !.hard = hard]
-    ELSE /\ frames' = SubSeq(frames, 1, Len(frames) - 1)
+    ELSE /\ frames' = PopTo(Len(frames) - 1, hard /\ Cur.kind = "create")
          /\ UNCHANGED tx
 
 \* STOP (in init code: an empty contract is deployed)
@@ -360,7 +387,7 @@ Create_CodeStoreOOG_NotReverted ==
 \* opSuicide: balance to the beneficiary, rent refund (once per account after the fork, every time before),
 \* account marked, balance zeroed.  Self-destruct to self destroys the balance (burn).
 SelfDestruct(b) ==
-    /\ InFrame /\ b \in Acct
+    /\ InFrame /\ ~Cur.starved /\ b \in Acct
     /\ LET s  == Cur.self
            x  == bal[s]
            r  == IF ~PostSD(tx.rg) \/ s \notin sui THEN Rent ELSE 0
@@ -467,8 +494,8 @@ ETX_AccessListOk    == At("ETX", "aldecode") /\ op.c.al # "bad" /\ Goto("cacheid
 ETX_FailAfterDebit_CacheFull == At("ETX", "cacheidx") /\ NEtx(etx) > 65535 /\ ExitDirty("cache-overflow", 1)
 ETX_IndexOk         == At("ETX", "cacheidx") /\ NEtx(etx) <= 65535 /\ Goto("eligible")
 \* 8. DEVIATION (F2c): destination zone not eligible: returns after the debit WITHOUT pushing a status word
-ETX_Ineligible_NoPush == At("ETX", "eligible") /\ op.c.dest # "elig" /\ ExitDirty("ineligible", 0)
-ETX_EligibleOk      == At("ETX", "eligible") /\ op.c.dest = "elig" /\ Goto("append")
+ETX_Ineligible_NoPush == At("ETX", "eligible") /\ ~ZoneEligible(op.c.dest) /\ ExitDirty("ineligible", 0)
+ETX_EligibleOk      == At("ETX", "eligible") /\ ZoneEligible(op.c.dest) /\ Goto("append")
 \* 9. append to the cache under the next index, push 1.  Before the fork the debit may have wrapped (value 2^256-1):
 \*    the ETX then carries more than was debited (named deviation "prefork-wrap").
 ETX_Append          == At("ETX", "append") /\ AppendEtx(EtxRec("ETX", op.c.amt, op.fee, op.tot))
@@ -540,7 +567,26 @@ LOCKUP_Exit(name, debited) ==
 UNWRAP_Begin(c) == Begin("UNWRAP", c)
 UNWRAP_FailGas      == At("UNWRAP", "start") /\ op.c.gl = "gtavail" /\ ExitReverted("gas")
 UNWRAP_GasOk        == At("UNWRAP", "start") /\ op.c.gl # "gtavail" /\ Goto("dest")
-UNWRAP_FailDest     == At("UNWRAP", "dest") /\ op.c.dest # "qiown" /\ ExitReverted("not-qi")
+UNWRAP_FailDest     == At("UNWRAP", "dest") /\ ~IsQi(op.c.dest) /\ ExitReverted("not-qi")
+\* A Qi beneficiary outside this zone makes the precompile return common.ErrExternalAddress, the one error every call
+\* opcode passes on to its own frame (`else if err == common.ErrExternalAddress { return nil, err }`): the frame that
+\* called the precompile and ALL its callers are unwound, the transaction fails and all its gas is consumed.
+AbortIdx == LET C == {i \in 1..Len(frames) : frames[i].kind = "create"}
+            IN  IF C = {} THEN 1 ELSE CHOOSE i \in C : \A k \in C : k <= i     \* opCreate does not pass the error on
+UNWRAP_ExternalBeneficiary_AbortsAllFrames ==
+    /\ At("UNWRAP", "dest") /\ op.c.dest = "qiother"
+    /\ LET i == AbortIdx
+           sn == frames[i].snap IN
+       /\ Restore(sn)
+       /\ op' = NoOp
+       /\ IF i = 1
+          THEN /\ frames' = <<>>
+               /\ tx' = [tx EXCEPT !.phase = "ending", !.status = "failed", !.hard = TRUE]
+          ELSE /\ frames' = PopTo(i - 1, TRUE)
+               /\ UNCHANGED tx
+       /\ Log(Rec("abort", frames[i].self, op.c.dest, op.c.amt, 0, 0, [k |-> op.kind, gl |-> op.c.gl, fee |-> op.c.fee, al |-> op.c.al, d |-> i]),
+              MkObs(sn.bal, sn.netx + Prefill, sn.wq, lock, 0, 1, "abort"), 1)
+    /\ UNCHANGED <<lock, devs, blockOut, survAll, bdevs, ntx>>
 UNWRAP_DestOk       == At("UNWRAP", "dest") /\ op.c.dest = "qiown" /\ Goto("balance")
 UNWRAP_FailNoBalance == At("UNWRAP", "balance") /\ wq[op.self] = 0 /\ ExitReverted("no-balance")
 UNWRAP_FailBalance  == At("UNWRAP", "balance") /\ wq[op.self] # 0 /\ (op.c.amt = MAXU \/ op.c.amt > wq[op.self])
@@ -586,13 +632,16 @@ OpDone ==
     /\ devs' = IF op.dev # "-" THEN devs \cup {op.kind \o "/" \o op.dev} ELSE devs
     /\ Log(Rec(op.kind, op.self, op.c.dest, op.c.amt, 0, 0, [k |-> op.kind, gl |-> op.c.gl, fee |-> op.c.fee, al |-> op.c.al])
               @@ [dev |-> op.dev, last |-> IF op.status = 1 THEN etx[Len(etx)] ELSE [k |-> "-"]],
-           MkObs(bal, NEtx(etx), wq, lock, op.status, op.pushed, op.exit), 1)
+           MkObs(bal, NEtx(etx), wq, lock, IF op.pushed = 1 THEN op.status ELSE -1, op.pushed, op.exit), 1)
     /\ IF tx.kind = "xsend"
        THEN /\ frames' = <<>>         \* top-level CreateETX: the transaction body is over, no gas is left
             /\ tx' = [tx EXCEPT !.phase = "ending", !.status = IF op.status = 1 THEN "ok" ELSE "failed", !.hard = TRUE]
        ELSE UNCHANGED <<tx, frames>>
     /\ UNCHANGED <<bal, code, ncreated, sui, wq, lock, etx, gh, blockOut, survAll, bdevs, ntx>>
 
+\* gas left for CreateETX = limit - intrinsic; it must cover ETXGas (= TxGas) and leave TxGas for the ETX
+XGasLimits == {IntrinsicGas + TxGas - 1, IntrinsicGas + 2 * TxGas - 1, IntrinsicGas + 2 * TxGas}
+XGasClass(g) == IF g < IntrinsicGas + TxGas THEN "ltetx" ELSE IF g < IntrinsicGas + 2 * TxGas THEN "lttx" ELSE "ok"
 \* an EOA sending value directly to an address outside the Quai ledger of this zone: top-level evm.Call -> CreateETX
 \* with all remaining gas
 TopXSend ==
@@ -600,7 +649,7 @@ TopXSend ==
     /\ tx' = [tx EXCEPT !.phase = "exec"]
     /\ frames' = <<Frame(tx.payer, "xsend", Snap)>>
     /\ op' = [kind |-> "XCALL", pc |-> "regime", self |-> tx.payer,
-              c |-> [dest |-> tx.to, amt |-> tx.v, gl |-> "ok", fee |-> "zero", al |-> "empty"], tot |-> 0, fee |-> 0,
+              c |-> [dest |-> tx.to, amt |-> tx.v, gl |-> XGasClass(tx.g), fee |-> "zero", al |-> "empty"], tot |-> 0, fee |-> 0,
               exit |-> "-", status |-> -1, pushed |-> 0, dev |-> "-",
               bal0 |-> bal, etx0 |-> Len(etx), wq0 |-> wq, lock0 |-> lock, snap |-> Snap]
     /\ Silent
@@ -659,28 +708,40 @@ AlDom(k) == CASE k = "ETX" -> AlClasses \cap {"empty", "good", "bad"}
               [] OTHER -> {"empty"}
 
 OpBegin ==
+    CanOp /\
     \E k \in OpKinds, d \in DestClasses, a \in AmtClasses : \E gl \in GlDom(k), fe \in FeeDom(k), al \in AlDom(k) :
-        /\ CanOp
-        /\ (k = "XCALL" => d # "inscope")
+        /\ k # "XCALL"      \* gasCall fails on a destination outside the Quai ledger of this zone: inside a contract
+                            \* such a CALL is an out-of-gas halt of the frame (action Fail); CreateETX is reachable from
+                            \* a top-level transaction only (TopXSend)
         /\ (k = "CLAIM" => (d = "elig" /\ a = "zero"))         \* the claim has no amount / destination class
         /\ Begin(k, [dest |-> d, amt |-> AmtOf(a, k, Cur.self), gl |-> gl, fee |-> fe, al |-> al])
 
-OpStep ==
+ETX_Step ==
     \/ ETX_FailInScope \/ ETX_ScopeOk \/ ETX_FailGasTooBig \/ ETX_FailGasTooSmall \/ ETX_GasOk
     \/ ETX_FailFeeOverflow \/ ETX_FailTotalOverflow \/ ETX_Total \/ ETX_FailBalance \/ ETX_BalanceOk \/ ETX_Debit
     \/ ETX_FailAfterDebit_AccessList \/ ETX_AccessListOk \/ ETX_FailAfterDebit_CacheFull \/ ETX_IndexOk
     \/ ETX_Ineligible_NoPush \/ ETX_EligibleOk \/ ETX_Append
+CONVERT_Step ==
     \/ CONVERT_FailNotInScope \/ CONVERT_FailNotQi \/ CONVERT_FailBelowMin \/ CONVERT_DestOk
     \/ CONVERT_FailRegime \/ CONVERT_RegimeOk \/ CONVERT_FailGasTooBig \/ CONVERT_FailGasTooSmall \/ CONVERT_GasOk
     \/ CONVERT_FailTotalOverflow \/ CONVERT_Total \/ CONVERT_FailBalance \/ CONVERT_BalanceOk \/ CONVERT_Debit
     \/ CONVERT_FailAfterDebit_CacheFull \/ CONVERT_IndexOk \/ CONVERT_Append
+XCALL_Step ==
     \/ XCALL_FailCallBalance \/ XCALL_CallOk \/ XCALL_FailRegime \/ XCALL_RegimeOk \/ XCALL_FailQiOther
     \/ XCALL_FailBelowMin \/ XCALL_DestOk \/ XCALL_FailGasEtx \/ XCALL_FailGasTx \/ XCALL_GasOk \/ XCALL_Debit
     \/ XCALL_FailCacheFull \/ XCALL_IndexOk \/ XCALL_FailIneligible \/ XCALL_EligibleOk \/ XCALL_Append
-    \/ UNWRAP_FailGas \/ UNWRAP_GasOk \/ UNWRAP_FailDest \/ UNWRAP_DestOk \/ UNWRAP_FailNoBalance
+UNWRAP_Step ==
+    \/ UNWRAP_FailGas \/ UNWRAP_GasOk \/ UNWRAP_FailDest \/ UNWRAP_ExternalBeneficiary_AbortsAllFrames \/ UNWRAP_DestOk \/ UNWRAP_FailNoBalance
     \/ UNWRAP_FailBalance \/ UNWRAP_BalanceOk \/ UNWRAP_Debit \/ UNWRAP_FailCacheFull \/ UNWRAP_IndexOk \/ UNWRAP_Append
+CLAIM_Step ==
     \/ CLAIM_FailGas \/ CLAIM_GasOk \/ CLAIM_FailLedger \/ CLAIM_LedgerOk \/ CLAIM_FailNoRecord \/ CLAIM_FailLocked
     \/ CLAIM_RecordOk \/ CLAIM_Delete \/ CLAIM_FailAfterDelete_CacheFull \/ CLAIM_IndexOk \/ CLAIM_Append
+OpStep ==
+    \/ op.kind = "ETX" /\ ETX_Step
+    \/ op.kind = "CONVERT" /\ CONVERT_Step
+    \/ op.kind = "XCALL" /\ XCALL_Step
+    \/ op.kind = "UNWRAP" /\ UNWRAP_Step
+    \/ op.kind = "CLAIM" /\ CLAIM_Step
 
 TxStart ==
     \/ \E payer \in EOAs \cup {"Q"}, kind \in TxKinds \ {"inbound"}, v \in TxValues, g \in GasLimits, p \in Prices,
@@ -689,21 +750,24 @@ TxStart ==
           \/ kind = "create" /\ TxBegin(payer, kind, "N", v, g, p, rg, pf)
           \/ kind = "sdata"  /\ v = 0 /\ TxBegin(payer, kind, payer, 0, g, p, rg, pf)
           \/ kind = "kquai"  /\ v = 0 /\ TxBegin(payer, kind, "Q", 0, g, p, rg, pf)
-          \/ kind = "xsend"  /\ \E d \in DestClasses \ {"inscope"} : TxBegin(payer, kind, d, v, g, p, rg, pf)
+          \/ kind = "xsend"  /\ pf = 0 /\ \E d \in DestClasses \ {"inscope"}, xg \in XGasLimits : TxBegin(payer, kind, d, v, xg, p, rg, 0)
     \/ \E t \in Acct \ {"N", "Z"}, v \in TxValues, glc \in {"ok", "toohigh"}, rg \in Regimes, pf \in Prefills :
           EtxStage(t, v, glc, rg, pf)
 
 Next ==
-    \/ TxStart
-    \/ TopCall \/ TopCreate \/ TopXSend \/ EtxGasLimitReached
-    \/ \E b \in Acct \ {"N"} : TxSelfDestructByData(b)
-    \/ \E dc \in {"freeze", "garbage"} : TxKQuaiControl(dc)
-    \/ \E t \in Acct \ {"N"}, v \in CallValues : Call(t, v)
-    \/ \E v \in CallValues : Create(v)
-    \/ Stop \/ ReturnCode \/ Revert \/ Fail \/ Create_CodeStoreOOG_NotReverted
-    \/ \E b \in Acct \ {"N"} : SelfDestruct(b)
-    \/ OpBegin \/ OpStep \/ OpDone
-    \/ (tx.phase = "ending" /\ \E u \in UsedSet : TxEnd(u))
+    \/ tx.phase = "idle" /\ ntx < MaxTx /\ TxStart
+    \/ tx.phase = "begun" /\
+          \/ TopCall \/ TopCreate \/ TopCreate_NoAddress \/ TopXSend \/ EtxGasLimitReached
+          \/ \E b \in Acct \ {"N"} : TxSelfDestructByData(b, IntrinsicGas)
+          \/ \E dc \in {"freeze", "garbage"} : TxKQuaiControl(dc, IntrinsicGas)
+    \/ InFrame /\
+          \/ \E t \in Acct \ {"N"}, v \in CallValues : Call(t, v)
+          \/ \E v \in CallValues : Create(v) \/ Create_NoAddress(v)
+          \/ Stop \/ ReturnCode \/ Revert \/ Fail \/ Create_CodeStoreOOG_NotReverted
+          \/ \E b \in Acct \ {"N"} : SelfDestruct(b)
+          \/ OpBegin
+    \/ op.kind # "none" /\ (OpStep \/ OpDone)
+    \/ tx.phase = "ending" /\ \E u \in UsedSet : TxEnd(u)
 
 Spec == Init /\ [][Next]_vars
 
